@@ -109,7 +109,10 @@ def run(chk: core.Check, tier: str, seed: int) -> None:
     # systematic floor under the sampling: every comparand through every producer, against itself and
     # against its neighbour in the list, all six operators
     for i, a in enumerate(COMPARANDS):
-        for b in (a, COMPARANDS[(i + 1) % len(COMPARANDS)]):
+        # ... and against Nothing on either side (an empty singular query looks like an empty list to the host language)
+        for b in (a, COMPARANDS[(i + 1) % len(COMPARANDS)], NOTHING, "nothing-left"):
+            if b == "nothing-left":
+                a, b = NOTHING, COMPARANDS[i]
             member = {}
             if a is not NOTHING:
                 member["l"] = a
